@@ -26,18 +26,29 @@ structure Ann where
   after : List Nat := []    -- semantic after: fires when control reaches the instruction after the construct
 deriving Repr, DecidableEq
 
+/-- the non-structural instructions of the fragment, decoded (the driver parses tokens into these; `other` is anything
+    else and cannot be executed) -/
+inductive OpK where
+  | nop | const (v : Nat) | drop | localGet (i : Nat) | localSet (i : Nat) | localTee (i : Nat)
+  | globalGet (i : Nat) | globalSet (i : Nat)
+  | add | sub | mul | and_ | or_ | xor_ | eq | ne | ltU | gtU | divU | remU | eqz | select
+  | load (off : Nat) | store (off : Nat) | call (f : Nat)
+  | other (t : Tok)
+deriving Repr, DecidableEq
+
 inductive Instr where
   /-- a non-structural, non-branching instruction (opaque token) with its before / after probes -/
-  | op (before after : List Nat) (t : Tok)
+  | op (before after : List Nat) (k : OpK)
   | probe (id : Nat)
-  | block (ann : Ann) (arity : Nat) (tok : Tok) (body : List Instr)
-  | loop (ann : Ann) (tok : Tok) (body : List Instr)
-  | ite (annT annE : Ann) (arity : Nat) (tok : Tok) (t e : List Instr) (hasElse : Bool)
-  | br (before : List Nat) (sa : Option SA) (n : Nat)
+  | block (before : List Nat) (ann : Ann) (arity : Nat) (tok : Tok) (body : List Instr)
+  | loop (before : List Nat) (ann : Ann) (tok : Tok) (body : List Instr)
+  | ite (before : List Nat) (annT annE : Ann) (arity : Nat) (tok : Tok) (t e : List Instr) (hasElse : Bool)
+  /-- `after` lists of unconditional branches, `return` and `unreachable` are dead code: emitted, never fired -/
+  | br (before after : List Nat) (sa : Option SA) (n : Nat)
   | brIf (before after : List Nat) (sa : Option SA) (n : Nat)
-  | brTable (before : List Nat) (sa : Option SA) (ts : List Nat) (d : Nat)
-  | ret (before : List Nat)
-  | unreachable (before : List Nat)
+  | brTable (before after : List Nat) (sa : Option SA) (ts : List Nat) (d : Nat)
+  | ret (before after : List Nat)
+  | unreachable (before after : List Nat)
 deriving Repr
 
 structure St where
@@ -76,10 +87,17 @@ def store32 (m : List (Nat × Nat)) (a v : Nat) : List (Nat × Nat) :=
 
 def memSize : Nat := 65536
 
-/-- result of a non-structural instruction: next state, a trap, or an event of the original program;
-    `none` = the instruction does not type-check against the stack (stuck) -/
-inductive StepR where
-  | ok (s : St)
+/-- the part of the state an instruction can read or write (everything but the trace) -/
+structure Core where
+  stack : List Nat
+  locals : List Nat
+  globals : List Nat
+  mem : List (Nat × Nat)
+deriving Repr, DecidableEq
+
+/-- result of a non-structural instruction: next state, a trap, a call, or stuck (does not type-check against the stack) -/
+inductive CoreR where
+  | ok (c : Core)
   | trap
   | call (f : Nat)
   | stuck
@@ -87,89 +105,118 @@ deriving Repr
 
 def setNth (l : List Nat) (i v : Nat) : List Nat := if i < l.length then l.set i v else l
 
-def stepTok (t : Tok) (s : St) : StepR :=
-  let parts := t.splitOn ":"
-  let arg : Nat := (parts[1]?.bind (·.toNat?)).getD 0
-  let bin (f : Nat → Nat → Option Nat) : StepR :=
+def stepCore (k : OpK) (s : Core) : CoreR :=
+  let bin (f : Nat → Nat → Option Nat) : CoreR :=
     match s.stack with
     | b :: a :: st => match f a b with
       | some v => .ok { s with stack := v :: st }
       | none => .trap
     | _ => .stuck
-  match parts[0]? with
-  | some "nop" => .ok s
-  | some "i32.const" =>
-    -- negative constants are written `i32.const:-5`
-    let v : Nat := match parts[1]? with
-      | some x => if x.startsWith "-" then (W - ((x.drop 1).toString.toNat?.getD 0) % W) % W else (x.toNat?.getD 0) % W
-      | none => 0
-    .ok { s with stack := v :: s.stack }
-  | some "drop" => match s.stack with
+  match k with
+  | .nop => .ok s
+  | .const v => .ok { s with stack := (v % W) :: s.stack }
+  | .drop => match s.stack with
     | _ :: st => .ok { s with stack := st }
     | _ => .stuck
-  | some "local.get" => match s.locals[arg]? with
+  | .localGet i => match s.locals[i]? with
     | some v => .ok { s with stack := v :: s.stack }
     | none => .stuck
-  | some "local.set" => match s.stack with
-    | v :: st => if arg < s.locals.length then .ok { s with stack := st, locals := setNth s.locals arg v } else .stuck
+  | .localSet i => match s.stack with
+    | v :: st => if i < s.locals.length then .ok { s with stack := st, locals := setNth s.locals i v } else .stuck
     | _ => .stuck
-  | some "local.tee" => match s.stack with
-    | v :: _ => if arg < s.locals.length then .ok { s with locals := setNth s.locals arg v } else .stuck
+  | .localTee i => match s.stack with
+    | v :: _ => if i < s.locals.length then .ok { s with locals := setNth s.locals i v } else .stuck
     | _ => .stuck
-  | some "global.get" => match s.globals[arg]? with
+  | .globalGet i => match s.globals[i]? with
     | some v => .ok { s with stack := v :: s.stack }
     | none => .stuck
-  | some "global.set" => match s.stack with
-    | v :: st => if arg < s.globals.length then .ok { s with stack := st, globals := setNth s.globals arg v } else .stuck
+  | .globalSet i => match s.stack with
+    | v :: st => if i < s.globals.length then .ok { s with stack := st, globals := setNth s.globals i v } else .stuck
     | _ => .stuck
-  | some "i32.add" => bin (fun a b => some ((a + b) % W))
-  | some "i32.sub" => bin (fun a b => some ((a + W - b) % W))
-  | some "i32.mul" => bin (fun a b => some ((a * b) % W))
-  | some "i32.and" => bin (fun a b => some (Nat.land a b))
-  | some "i32.eq" => bin (fun a b => some (if a = b then 1 else 0))
-  | some "i32.lt_u" => bin (fun a b => some (if a < b then 1 else 0))
-  | some "i32.div_u" => bin (fun a b => if b = 0 then none else some (a / b))
-  | some "i32.rem_u" => bin (fun a b => if b = 0 then none else some (a % b))
-  | some "i32.eqz" => match s.stack with
+  | .add => bin (fun a b => some ((a + b) % W))
+  | .sub => bin (fun a b => some ((a + W - b) % W))
+  | .mul => bin (fun a b => some ((a * b) % W))
+  | .and_ => bin (fun a b => some (Nat.land a b))
+  | .or_ => bin (fun a b => some (Nat.lor a b))
+  | .xor_ => bin (fun a b => some (Nat.xor a b))
+  | .eq => bin (fun a b => some (if a = b then 1 else 0))
+  | .ne => bin (fun a b => some (if a = b then 0 else 1))
+  | .ltU => bin (fun a b => some (if a < b then 1 else 0))
+  | .gtU => bin (fun a b => some (if a > b then 1 else 0))
+  | .divU => bin (fun a b => if b = 0 then none else some (a / b))
+  | .remU => bin (fun a b => if b = 0 then none else some (a % b))
+  | .eqz => match s.stack with
     | a :: st => .ok { s with stack := (if a = 0 then 1 else 0) :: st }
     | _ => .stuck
-  | some "select" => match s.stack with
+  | .select => match s.stack with
     | c :: b :: a :: st => .ok { s with stack := (if c ≠ 0 then a else b) :: st }
     | _ => .stuck
-  | some "i32.load" => match s.stack with
-    | a :: st => if a + arg + 4 ≤ memSize then .ok { s with stack := load32 s.mem (a + arg) :: st } else .trap
+  | .load off => match s.stack with
+    | a :: st => if a + off + 4 ≤ memSize then .ok { s with stack := load32 s.mem (a + off) :: st } else .trap
     | _ => .stuck
-  | some "i32.store" => match s.stack with
-    | v :: a :: st => if a + arg + 4 ≤ memSize then .ok { s with stack := st, mem := store32 s.mem (a + arg) v } else .trap
+  | .store off => match s.stack with
+    | v :: a :: st => if a + off + 4 ≤ memSize then .ok { s with stack := st, mem := store32 s.mem (a + off) v } else .trap
     | _ => .stuck
-  | some "call" => .call arg
-  | _ => .stuck
+  | .call f => .call f
+  | .other _ => .stuck
 
-/-- helper functions of the module under test (not instrumented): number of parameters, of results, of extra
-    locals, and the body -/
+def St.core (s : St) : Core := { stack := s.stack, locals := s.locals, globals := s.globals, mem := s.mem }
+def St.withCore (s : St) (c : Core) : St := { s with stack := c.stack, locals := c.locals, globals := c.globals, mem := c.mem }
+
+inductive StepR where
+  | ok (s : St)
+  | trap
+  | call (f : Nat)
+  | stuck
+deriving Repr
+
+/-- an instruction never looks at the trace -/
+def stepTok (k : OpK) (s : St) : StepR :=
+  match stepCore k s.core with
+  | .ok c => .ok (s.withCore c)
+  | .trap => .trap
+  | .call f => .call f
+  | .stuck => .stuck
+
+/-- the functions a body may call (not instrumented): number of parameters, of results, of extra locals, the body;
+    `log = true` marks the imported reporting function: it appends its argument to the trace -/
 structure Callee where
   nparams : Nat
   nresults : Nat
   nlocals : Nat
   body : List Instr
+  log : Bool := false
 deriving Repr
 
 def Out.isNormal : Out → Bool
   | .normal _ => true
   | _ => false
 
+def saPs : Option SA → List Nat
+  | some sa => sa.ps
+  | none => []
+
 /-- what a block-like construct with label arity `a` turns the outcome of its body into -/
 def leaveBlock (m : Bool) (ann : Ann) (base : List Nat) (a : Nat) : Out → Out
   | .normal s => .normal (if m then (s.fire ann.exit).fire ann.after else s)
   | .br 0 pend s =>
     let s := s.exitTo base a
-    .normal (if m then (s.fire (match pend with | some sa => sa.ps | none => [])).fire ann.after else s)
+    .normal (if m then (s.fire (saPs pend)).fire ann.after else s)
   | .br (n + 1) pend s => .br n pend s
   | o => o
 
-def saPs : Option SA → List Nat
-  | some sa => sa.ps
-  | none => []
+/-- what the caller sees when a (non-instrumented) callee finishes -/
+def callRet (m : Bool) (after : List Nat) (s : St) (c : Callee) : Out → Out
+  | .normal r | .ret r | .br 0 _ r =>
+    let s' : St := { r with stack := r.stack.take c.nresults ++ s.stack.drop c.nparams, locals := s.locals }
+    .normal (if m then s'.fire after else s')
+  | .trap r => .trap { r with stack := s.stack, locals := s.locals }
+  | .br (_ + 1) _ _ => .stuck "callee branch"
+  | .stuck w => .stuck w
+
+def Out.ok : Out → Bool
+  | .stuck _ => false
+  | _ => true
 
 mutual
 /-- the executable semantics; `m` = monitor on; `fx` = function-exit probes of the enclosing function -/
@@ -190,32 +237,34 @@ def runOne (fns : List Callee) (m : Bool) (fx : List Nat) : Nat → Instr → St
       match stepTok t s with
       | .ok s' => .normal (if m then s'.fire after else s')
       | .trap => .trap s
-      | .stuck => .stuck s!"op {t}"
+      | .stuck => .stuck "op"
       | .call f =>
         match fns[f]? with
         | none => .stuck s!"call {f}"
         | some c =>
           if s.stack.length < c.nparams then .stuck "call args" else
           let args := (s.stack.take c.nparams).reverse
-          let callee : St := { s with stack := [], locals := args ++ List.replicate c.nlocals 0 }
-          -- helpers are not instrumented: monitor off, no exit probes
-          match run fns false [] fuel c.body callee with
-          | .normal r | .ret r | .br 0 _ r =>
-            let s' : St := { r with stack := r.stack.take c.nresults ++ s.stack.drop c.nparams, locals := s.locals }
+          if c.log then
+            let s' : St := { s with stack := s.stack.drop c.nparams, trace := s.trace ++ args }
             .normal (if m then s'.fire after else s')
-          | .trap r => .trap { r with stack := s.stack, locals := s.locals }
-          | .br (_ + 1) _ _ => .stuck "callee branch"
-          | .stuck w => .stuck w
+          else
+          let callee : St := { s with stack := [], locals := args ++ List.replicate c.nlocals 0 }
+          -- other callees are not instrumented: monitor off, no exit probes
+          callRet m after s c (run fns false [] fuel c.body callee)
     | .probe id => .normal (s.fire [id])
-    | .block ann a _ body =>
+    | .block before ann a _ body =>
+      let s := if m then s.fire before else s
       leaveBlock m ann s.stack a (run fns m fx fuel body (if m then s.fire ann.entry else s))
-    | .loop ann tk body =>
+    | .loop before ann tk body =>
+      let s := if m then s.fire before else s
       match run fns m fx fuel body (if m then s.fire ann.entry else s) with
       | .normal s' => .normal (if m then (s'.fire ann.exit).fire ann.after else s')
-      | .br 0 _ s' => runOne fns m fx fuel (.loop ann tk body) { s' with stack := s.stack }
+      -- the label of a loop has no values in this fragment; the monitor's `before` slot belongs to the first entry only
+      | .br 0 _ s' => runOne fns m fx fuel (.loop [] ann tk body) { s' with stack := s.stack }
       | .br (n + 1) pend s' => .br n pend s'
       | o => o
-    | .ite annT annE a _ t e _ =>
+    | .ite before annT annE a _ t e _ =>
+      let s := if m then s.fire before else s
       match s.stack with
       | v :: st =>
         let s0 : St := { s with stack := st }
@@ -225,7 +274,7 @@ def runOne (fns : List Callee) (m : Bool) (fx : List Nat) : Nat → Instr → St
         else
           leaveBlock m { annE with after := afterBoth } st a (run fns m fx fuel e (if m then s0.fire annE.entry else s0))
       | [] => .stuck "if"
-    | .br before sa n => .br n (if m then sa else none) (if m then s.fire before else s)
+    | .br before _ sa n => .br n (if m then sa else none) (if m then s.fire before else s)
     | .brIf before after sa n =>
       let s := if m then s.fire before else s
       match s.stack with
@@ -234,13 +283,13 @@ def runOne (fns : List Callee) (m : Bool) (fx : List Nat) : Nat → Instr → St
         if v ≠ 0 then .br n (if m then sa else none) s0
         else .normal (if m then (s0.fire after).fire (saPs sa) else s0)
       | [] => .stuck "br_if"
-    | .brTable before sa ts d =>
+    | .brTable before _ sa ts d =>
       let s := if m then s.fire before else s
       match s.stack with
       | v :: st => .br ((ts[v]?).getD d) (if m then sa else none) { s with stack := st }
       | [] => .stuck "br_table"
-    | .ret before => .ret (if m then (s.fire before).fire fx else s)
-    | .unreachable before => .trap (if m then (s.fire before).fire fx else s)
+    | .ret before _ => .ret (if m then (s.fire before).fire fx else s)
+    | .unreachable before _ => .trap (if m then (s.fire before).fire fx else s)
 end
 
 /-! ### functions -/
@@ -276,25 +325,25 @@ def runFunc (fns : List Callee) (m : Bool) (fuel : Nat) (f : Func) (s : St) : FO
 def probes (ps : List Nat) : List Instr := ps.map Instr.probe
 
 /-- flag handling code the lowering generates -/
-def setFlag (f v : Nat) : List Instr := [.op [] [] s!"i32.const:{v}", .op [] [] s!"local.set:{f}"]
+def setFlag (f v : Nat) : List Instr := [.op [] [] (.const v), .op [] [] (.localSet f)]
 
 /-- `local.get f; if <probes> else <rest> end` -/
-def flagChain : List SA → Bool → List Instr
-  | [], _ => []
-  | sa :: rest, _first =>
+def flagChain : List SA → List Instr
+  | [] => []
+  | sa :: rest =>
     -- the code's shape (see `resolve_bodies`): the first check opens an `if`; every further one sits in an `else` with its
     -- own `if … end`; one closing `end`. For one or two entries this is a proper nest.
-    [.op [] [] s!"local.get:{sa.flag}", .ite {} {} 0 "if" (probes sa.ps) (flagChain rest false) (!rest.isEmpty)]
+    [.op [] [] (.localGet sa.flag), .ite [] {} {} 0 "if" (probes sa.ps) (flagChain rest) (!rest.isEmpty)]
 
 mutual
 /-- annotated branches whose label reaches exactly `d` levels out of the fragment -/
 def pendingI (d : Nat) : Instr → List SA
-  | .br _ (some sa) n => if n = d then [sa] else []
+  | .br _ _ (some sa) n => if n = d then [sa] else []
   | .brIf _ _ (some sa) n => if n = d then [sa] else []
-  | .brTable _ (some sa) ts dflt => (ts ++ [dflt]).filterMap (fun n => if n = d then some sa else none)
-  | .block _ _ _ body => pendingL (d + 1) body
-  | .loop _ _ body => pendingL (d + 1) body
-  | .ite _ _ _ _ t e _ => pendingL (d + 1) t ++ pendingL (d + 1) e
+  | .brTable _ _ (some sa) ts dflt => (ts ++ [dflt]).filterMap (fun n => if n = d then some sa else none)
+  | .block _ _ _ _ body => pendingL (d + 1) body
+  | .loop _ _ _ body => pendingL (d + 1) body
+  | .ite _ _ _ _ _ t e _ => pendingL (d + 1) t ++ pendingL (d + 1) e
   | _ => []
 def pendingL (d : Nat) : List Instr → List SA
   | [] => []
@@ -305,28 +354,30 @@ mutual
 def lower (fx : List Nat) : Instr → List Instr
   | .op before after t => probes before ++ [.op [] [] t] ++ probes after
   | .probe id => [.probe id]
-  | .block ann a tk body =>
-    .block {} a tk (probes ann.entry ++ lowerL fx body ++ probes ann.exit) :: (flagChain (pendingL 0 body) true ++ probes ann.after)
-  | .loop ann tk body =>
-    .loop {} tk (probes ann.entry ++ lowerL fx body ++ probes ann.exit) :: probes ann.after
-  | .ite annT annE a tk t e hasElse =>
-    .ite {} {} a tk (probes annT.entry ++ lowerL fx t ++ probes annT.exit)
+  | .block before ann a tk body =>
+    probes before ++
+    .block [] {} a tk (probes ann.entry ++ lowerL fx body ++ probes ann.exit) :: (flagChain (pendingL 0 body) ++ probes ann.after)
+  | .loop before ann tk body =>
+    probes before ++ .loop [] {} tk (probes ann.entry ++ lowerL fx body ++ probes ann.exit) :: probes ann.after
+  | .ite before annT annE a tk t e hasElse =>
+    probes before ++
+    .ite [] {} {} a tk (probes annT.entry ++ lowerL fx t ++ probes annT.exit)
                     (probes annE.entry ++ lowerL fx e ++ probes annE.exit) hasElse
-      :: (flagChain (pendingL 0 t ++ pendingL 0 e) true ++ probes (annT.after ++ annE.after))
-  | .br before sa n =>
+      :: (flagChain (pendingL 0 t ++ pendingL 0 e) ++ probes (annT.after ++ annE.after))
+  | .br before after sa n =>
     match sa with
-    | some s => probes before ++ setFlag s.flag 1 ++ [.br [] none n] ++ setFlag s.flag 0
-    | none => probes before ++ [.br [] none n]
+    | some s => probes before ++ setFlag s.flag 1 ++ [.br [] [] none n] ++ probes after ++ setFlag s.flag 0
+    | none => probes before ++ [.br [] [] none n] ++ probes after
   | .brIf before after sa n =>
     match sa with
     | some s => probes before ++ setFlag s.flag 1 ++ [.brIf [] [] none n] ++ probes after ++ setFlag s.flag 0 ++ probes s.ps
     | none => probes before ++ [.brIf [] [] none n] ++ probes after
-  | .brTable before sa ts d =>
+  | .brTable before after sa ts d =>
     match sa with
-    | some s => probes before ++ setFlag s.flag 1 ++ [.brTable [] none ts d] ++ setFlag s.flag 0
-    | none => probes before ++ [.brTable [] none ts d]
-  | .ret before => probes before ++ probes fx ++ [.ret []]
-  | .unreachable before => probes before ++ probes fx ++ [.unreachable []]
+    | some s => probes before ++ setFlag s.flag 1 ++ [.brTable [] [] none ts d] ++ probes after ++ setFlag s.flag 0
+    | none => probes before ++ [.brTable [] [] none ts d] ++ probes after
+  | .ret before after => probes before ++ probes fx ++ [.ret [] []] ++ probes after
+  | .unreachable before after => probes before ++ probes fx ++ [.unreachable [] []] ++ probes after
 def lowerL (fx : List Nat) : List Instr → List Instr
   | [] => []
   | i :: is => lower fx i ++ lowerL fx is
@@ -338,6 +389,6 @@ def lowerF (f : Func) : Func :=
   { entry := [], exit := [], nres := f.nres,
     body :=
       if f.exit.isEmpty then probes f.entry ++ lowerL [] f.body
-      else probes f.entry ++ [Instr.block {} f.nres "block:functype" (lowerL f.exit f.body)] ++ probes f.exit }
+      else probes f.entry ++ [Instr.block [] {} f.nres "block:functype" (lowerL f.exit f.body)] ++ probes f.exit }
 
 end Orca.Sem
